@@ -23,6 +23,7 @@ use std::{
 pub mod abi;
 mod clock;
 mod interpose;
+pub mod multi;
 mod ops;
 pub mod pollsim;
 mod ring;
@@ -405,6 +406,9 @@ pub fn at(delay: Duration, label: impl Into<String>, action: impl FnOnce() + 'st
 // ------------------------------------------------------------------ simhook hooks for Engine K (single thread)
 
 fn hook_thread_id() -> Option<u64> {
+    if let Some(i) = multi::thread_index() {
+        return Some(i);
+    }
     if is_active() && !in_shuttle() { Some(0) } else { None }
 }
 
@@ -413,14 +417,23 @@ fn in_shuttle() -> bool {
     false
 }
 
-fn hook_point(_site: u32) {}
+fn hook_point(_site: u32) {
+    multi::point();
+}
 
 fn hook_yield() {
+    if multi::active() {
+        // another thread of the run has to act
+        return multi::yield_now();
+    }
     // a spin-wait on the only thread there is: let the kernel make progress instead
     pump_once();
 }
 
 fn hook_park(timeout: Option<Duration>) {
+    if multi::active() {
+        return multi::park(timeout);
+    }
     // nobody else can unpark us: time passes
     if let Some(d) = timeout {
         with_kernel(|k| {
@@ -435,9 +448,17 @@ fn hook_park(timeout: Option<Duration>) {
     }
 }
 
-fn hook_unpark(_id: u64) {}
+fn hook_unpark(id: u64) {
+    multi::unpark(id);
+}
 
 fn hook_spawn(f: Box<dyn FnOnce() + Send + 'static>) {
+    if multi::active() {
+        // a thread of the run like any other (its creation is intercepted)
+        with_stats(|s| s.pool_jobs += 1);
+        std::thread::Builder::new().stack_size(512 * 1024).spawn(f).expect("pool thread");
+        return;
+    }
     with_stats(|s| s.pool_jobs += 1);
     with_kernel(|k| k.jobs.push_back(f));
 }
